@@ -27,6 +27,11 @@ theorem slice_eq_pyslice (xs : List α) (start stop step : Option Int)
       evalStages stages xs = pySlice xs start stop (step.getD 1) :=
   pipeline_eval_eq_pySlice xs start stop step hstep hlen
 
+/-- **pyslice_eq_index_form.** The clamp-segment-stride form of `pySlice` is the index comprehension
+`[xs[i] for i in range(s, e) if (i - s) % step == 0]` over the clamped bounds, for every list, bounds and step. -/
+theorem pyslice_eq_index_form (xs : List α) (start stop : Option Int) (step : Int) :
+    pySlice xs start stop step = pySliceIdx xs start stop step := pySlice_eq_idx xs start stop step
+
 /-- **pipe_eq_eval.** Running the composed operator models on any raw input (conforming or not, lagging
 disposal or not) gives the list semantics of the stage list on the conforming view. -/
 theorem pipe_eq_eval (lag : Bool) (stages : List Stage) (raw : List (Notif α)) :
